@@ -368,6 +368,8 @@ def gen_defs(repo, res):
     res.functions.update({fco.key, fja.key, fsx.key, dm.func("FFCXBackendDefinitions._define_coordinate_dofs_lincomb").key,
                           repo.mod("ffcx.codegeneration.symbols").func("FFCXBackendSymbols.coefficient_dof_access").key})
     f0, f1 = Node("Coefficient", name="f"), Node("Coefficient", name="g")
+    qel = Node("Element", is_quadrature=True, block_size=2, has_custom_quadrature=True)
+    fq = Node("Coefficient", name="g", ufl_element=_PyCall(lambda: qel))
     T = w.table
     # (label, entity, integral type, function, table, restriction, coefficient, dims of (f, g), expected source indices)
     cases = [
@@ -376,6 +378,8 @@ def gen_defs(repo, res):
         ("coefficient, interior facet, '-' side, permuted table", "facet", "interior_facet", fco, T("FE2", (2, 3, NQ, 3), offset=3, permuted=True), "-", f1, (3, 3)),
         ("coefficient, interior facet, '+' side", "facet", "interior_facet", fco, T("FE2", (2, 3, NQ, 3), offset=0, permuted=True), "+", f0, (3, 3)),
         ("coefficient, exterior facet, piecewise table", "facet", "exterior_facet", fco, T("FE3", (1, 3, 1, 3), ttype="piecewise"), None, f0, (3, 3)),
+        # a blocked quadrature element tabulated at its own points: the table is the identity (concretely so here), the dofs are interleaved
+        ("coefficient on a blocked quadrature element, component 1 of 2", "cell", "cell", fco, T("FEq", (1, 1, NQ, NQ), offset=1, bs=2, ttype="quadrature"), None, fq, (3, 2 * NQ)),
         ("jacobian component, cell", "cell", "cell", fja, T("FE4", (1, 1, 1, 3), offset=1, ttype="piecewise"), None, None, (3, 3)),
         ("jacobian component, interior facet '-'", "facet", "interior_facet", fja, T("FE5", (1, 3, NQ, 3), offset=0), "-", None, (3, 3)),
         ("jacobian component, interior facet '+'", "facet", "interior_facet", fja, T("FE5", (1, 3, NQ, 3), offset=2), "+", None, (3, 3)),
@@ -387,8 +391,12 @@ def gen_defs(repo, res):
         key = f"{fn.key}:{label}"
         res.ob(key)
         width = 2 if itype == "interior_facet" else 1
-        offsets = {f0: 0, f1: width * dims[0]}
+        offsets = {f0: 0, f1: width * dims[0], fq: width * dims[0]}
         nnodes = 3
+        identity = td.f["ttype"] == "quadrature"
+        concrete = dict(CONCRETE)
+        if identity:
+            concrete[td.f["name"]] = {(0, 0, q_, d_): (1 if q_ == d_ else 0) for q_ in range(NQ) for d_ in range(NQ)}
         defs, symbols = _defs_world(w, etype, itype, offsets, nnodes)
         symbols.f["element_tables"][td.f["name"]] = w.sym(td.f["name"], "DataType.REAL")
         mt = Node("ModifiedTerminal", terminal=coef if coef is not None else Node("SpatialCoordinate"), restriction=restr, expr=None)
@@ -407,7 +415,7 @@ def gen_defs(repo, res):
         fv = td.f
         nd_ = fv["values"].f["shape"][3]
         for q in range(NQ):
-            ex = Exec(("val",), concrete=CONCRETE, extents=extents)
+            ex = Exec(("val",), concrete=concrete, extents=extents)
             try:
                 ex.run(w.I.construct("ForRange", [iq, q, q + 1, [sec]], {}))
             except ExecError as e:
@@ -419,7 +427,7 @@ def gen_defs(repo, res):
             qq = 0 if fv["is_piecewise"] else q
             want = Rat.const(0)
             for ic in range(nd_):
-                tv = Rat.var(f"{fv['name']}[{perm}, {ent}, {qq}, {ic}]")
+                tv = Rat.var(f"{fv['name']}[{perm}, {ent}, {qq}, {ic}]") if not identity else Rat.const(1 if ic == qq else 0)
                 if coef is not None:
                     src = Rat.var(f"w[{offsets[coef] + fv['block_size'] * ic + fv['offset']}]")
                 else:
@@ -573,6 +581,24 @@ def gen_form(repo, res):
         integral_domains={"cell": [[dom("triangle")], [dom("triangle")], [dom("triangle")]], "exterior_facet": [], "interior_facet": [], "vertex": [], "ridge": []},
         subdomain_ids={"cell": [1, -1, 1], "exterior_facet": [], "interior_facet": [], "vertex": [], "ridge": []})
 
+    # the form IR as _compute_form_ir builds it (interpreted), with every integral type present: the generators must lay the types out in the enum
+    # order of ufcx.h whatever the order in which the IR's per-type dictionaries were filled
+    from .descriptor import form_ir_sample
+    itg = [Node("IntegralData", integral_type="ridge", subdomain_id=(4,)), Node("IntegralData", integral_type="cell", subdomain_id=(3, "otherwise")),
+           Node("IntegralData", integral_type="vertex", subdomain_id=(2, 9)), Node("IntegralData", integral_type="exterior_facet", subdomain_id=(7,)),
+           Node("IntegralData", integral_type="interior_facet", subdomain_id=("otherwise",))]
+    inames = {(5, i): f"integral_{'rcvei'[i]}" for i in range(5)}
+    idoms = {"integral_r": [dom("point")], "integral_c": [dom("tetrahedron")], "integral_v": [dom("point")], "integral_e": [dom("triangle")], "integral_i": [dom("triangle")]}
+    try:
+        it0, args0, _n = form_ir_sample(repo, 2, "full", itg=itg, names=inames, domains=idoms)
+        ir0 = it0.call_f(repo.mod("ffcx.ir.representation").func("_compute_form_ir"), args0)
+        if isinstance(ir0, Node) and all(isinstance(ir0.f.get(k_), dict) and set(ir0.f[k_]) == set(types) for k_ in ("subdomain_ids", "integral_names", "integral_domains")):
+            samples["the IR computed by _compute_form_ir for a form with integrals of all five types"] = ir0
+        else:
+            res.notes.append("GEN-FORM: the interpreted _compute_form_ir result is not a FormIR with per-type dictionaries over the five integral types; composed sample skipped")
+    except (Raised, AnalysisError) as e:
+        res.notes.append(f"GEN-FORM: composed sample skipped ({getattr(e, 'what', e)}); FORM-IR-SOURCES decides _compute_form_ir")
+
     def np_unique(a, return_index=False):
         vals = sorted(set(a))
         if return_index:
@@ -596,7 +622,7 @@ def gen_form(repo, res):
             try:
                 out = it.call_f(g, [copy.deepcopy(ir), {}])
             except Raised as e:
-                res.fail(key, f"{be} form generator raises ({e.what}) on `{label}`", repo.mod(fm).line(g.node), props=("C06", "C18") if be == "C" else ("C18", "C20"))
+                res.fail(key, f"{be} form generator raises ({e.what}) on `{label}`", repo.mod(fm).line(g.node), props=("C06", "C18") if be == "C" else ("C06", "C18", "C20"))
                 continue
             text = out[-1] if isinstance(out, tuple) else out
             if not isinstance(text, str):
@@ -626,7 +652,7 @@ def gen_form(repo, res):
                         exp_ids.append(ids[i])
                         n += 1
                 exp_off.append(exp_off[-1] + n)
-            props = ("C06", "C18") if be == "C" else ("C18", "C20")
+            props = ("C06", "C18") if be == "C" else ("C06", "C18", "C20")
             loc = repo.mod(fm).line(g.node)
             n_off, offs = arr("form_integral_offsets")
             if offs is None or [int(x) for x in offs] != exp_off or n_off != len(exp_off):
@@ -702,7 +728,7 @@ def gen_form(repo, res):
         res.ob(key)
         a, b = results.get(("C", label)), results.get(("numba", label))
         if a is not None and b is not None and a != b:
-            res.fail(key, f"`{label}`: C emits (offsets, kernels, ids, positions) = {a}, numba emits {b}", "ffcx/codegeneration/numba/form.py", props=("C18", "C20"))
+            res.fail(key, f"`{label}`: C emits (offsets, kernels, ids, positions) = {a}, numba emits {b}", "ffcx/codegeneration/numba/form.py", props=("C06", "C18", "C20"))
 
 
 # ---- GEN-PARTITION -------------------------------------------------------------------------------------------
